@@ -399,12 +399,18 @@ def unit_zh_time(ctx, T):
                 continue
             seen.add(key)
             try:
-                a = dtres.res_str(tp.parse(er, ref).value)
+                inner = tp.parse(er, ref).value
+                a = dtres.res_str(inner)
             except Exception as e:
+                inner = e
                 a = dtres.err_kind(e)
-            lines.append('\t'.join(['dt.zhtime', dtres.dt_field(ref), variant, dtres.b(extra.data_type.name == 'ChineseTime')] +
-                                   [cps(x) for x in g]))
+            fields = [dtres.dt_field(ref), variant, dtres.b(extra.data_type.name == 'ChineseTime')] + [cps(x) for x in g]
+            lines.append('\t'.join(['dt.zhtime'] + fields))
             impl.append(a)
+            meta.append((s, er.text, key))
+            # the entity-level composition the theorems are about (RTV.DtRes.resolveTimeZh: … -> _date_time_resolution)
+            lines.append('\t'.join(['dt.rtimezh'] + fields))
+            impl.append(dtres.entity_values(T, 'time', inner, 'zh-cn'))
             meta.append((s, er.text, key))
     model = dtres.drive(lines)
     ctx.count('ChineseTimeParser.parse', len(lines))
@@ -597,8 +603,10 @@ def unit_time_of_today(ctx, T):
             ref = ref_dt(REFS[i % len(REFS)])
             calls.clear()
             try:
-                a = dtres.res_str(dtp.parse_time_of_today(src, ref))
+                inner = dtp.parse_time_of_today(src, ref)
+                a = dtres.res_str(inner)
             except Exception as e:
+                inner = e
                 a = dtres.err_kind(e)
             s_ = src.strip().lower()
             wm = next(rx.finditer(cfg.simple_time_of_today_after_regex, s_), None)
@@ -613,8 +621,13 @@ def unit_time_of_today(ctx, T):
             else:
                 f = ['nothing', 'none', '-', '0', '-', '1,1,1,0,0,0']
             m = next(rx.finditer(cfg.specific_time_of_day_regex, s_), None)
-            lines.append('\t'.join(['dt.tod', dtres.dt_field(ref)] + f + [dtres.b(m is not None), cps(m.group().lower()) if m else '-']))
+            fields = [dtres.dt_field(ref)] + f + [dtres.b(m is not None), cps(m.group().lower()) if m else '-']
+            lines.append('\t'.join(['dt.tod'] + fields))
             impl.append(a)
+            meta.append((src, ref))
+            # the entity-level composition the theorems are about (RTV.DtRes.resolveTimeOfToday)
+            lines.append('\t'.join(['dt.rtod'] + fields))
+            impl.append(dtres.entity_values(T, 'datetime', inner))
             meta.append((src, ref))
     finally:
         tp.parse = otp
@@ -773,6 +786,24 @@ def one_entity(results, query, want_type):
     return ents[0], None
 
 
+# date expressions of contracts/C07.json `words` whose date is determined by the text and the reference alone: an offset
+# in days from the reference, or the calendar date written (m/d/y in en-us, d/m/y in fr-fr / it-it)
+WORD_DATES = {('en-us', 'tomorrow'): 1, ('en-us', 'today'): 0, ('en-us', 'yesterday'): -1,
+              ('en-us', 'march 5, 2019'): (2019, 3, 5), ('en-us', '3/5/2019'): (2019, 3, 5), ('en-us', '2019-03-05'): (2019, 3, 5),
+              ('en-us', 'the 5th of may 2020'): (2020, 5, 5),
+              ('fr-fr', 'demain'): 1, ('fr-fr', '5/3/2019'): (2019, 3, 5), ('it-it', 'domani'): 1, ('it-it', '5/3/2019'): (2019, 3, 5),
+              ('nl-nl', 'morgen'): 1, ('zh-cn', '明天'): 1, ('zh-cn', '2019年3月5日'): (2019, 3, 5)}
+
+
+def word_date(culture, d, ref):
+    """-> [(timex, value)] of the date expression alone, computed from the text and the reference (None: not determined)."""
+    w = WORD_DATES.get((culture, d))
+    if w is None:
+        return None
+    day = (datetime.date(*ref[:3]) + datetime.timedelta(days=w)) if isinstance(w, int) else datetime.date(*w)
+    return [(day.isoformat(), day.isoformat())]
+
+
 def emit(ctx, pending, cap=25):
     """Report deferred property failures: other signatures before the (many) hour-0 cases, each signature capped so
     that one frequent finding cannot crowd the others out of the evidence."""
@@ -919,20 +950,59 @@ def pipeline(ctx, variant):
             for w in spec.get('resolved_times', []):
                 pre.append((culture, w, wrefs[0]))
     pre_res = dtres.run_queries(pre) if pre else []
+    # Metamorphic part of the word-time oracle (contracts/C07.json `words`): "what the date / time expression resolves to
+    # ALONE".  That expectation comes from the tree under test, so (audit item 25) (i) every expression that cannot be used
+    # is counted by reason in the evidence (`word_time_skipped_by_reason`) instead of being dropped silently, and (ii) where
+    # the date is determined by the text and the reference (WORD_DATES: today / tomorrow / yesterday words, full dates) the
+    # expectation is computed here, independently — the tree's own reading is only compared with it (`…differs…` counter).
+    skips = ctx.extra.setdefault('word_time_skipped_by_reason', {})
+
+    def skip(reason):
+        skips[reason] = skips.get(reason, 0) + 1
+
+    def why_unusable(rr, text, tname, vtype, one_value):
+        if isinstance(rr, str):
+            return 'raises / times out'
+        if len(rr) != 1:
+            return '%d entities' % len(rr)
+        if rr[0][3] != tname:
+            return 'type ' + str(rr[0][3])
+        if rr[0][0] != 0 or rr[0][1] != len(text) - 1:
+            return 'span is not the whole expression'
+        if rr[0][5] is None:
+            return 'no resolution'
+        if one_value and len(rr[0][5]['values']) != 1:
+            return '%d values' % len(rr[0][5]['values'])
+        if vtype and not all(v.get('type') == vtype and v.get('value') and v.get('value') != 'not resolved'
+                             for v in rr[0][5]['values']):
+            return 'unresolved / other value type'
+        return None
     time_alone = {}
     for (culture, w, ref), rr in list(zip(pre, pre_res))[npre:]:
-        if (not isinstance(rr, str) and len(rr) == 1 and rr[0][3] == 'datetimeV2.time' and rr[0][5] is not None
-                and len(rr[0][5]['values']) == 1 and rr[0][0] == 0 and rr[0][1] == len(w) - 1):
+        why = why_unusable(rr, w, 'datetimeV2.time', None, True)
+        if why is None:
             v = rr[0][5]['values'][0]
             time_alone[(culture, w)] = (v['timex'], v['value'])
+        else:
+            skip('time alone %s %r: %s' % (culture, w, why))
     pre, pre_res = pre[:npre], pre_res[:npre]
     date_alone = {}
+    n_indep = 0
     for (culture, d, ref), rr in zip(pre, pre_res):
-        if (not isinstance(rr, str) and len(rr) == 1 and rr[0][3] == 'datetimeV2.date' and rr[0][0] == 0
-                and rr[0][1] == len(d) - 1 and rr[0][5] is not None
-                and all(v.get('type') == 'date' and v.get('value') and v.get('value') != 'not resolved' for v in rr[0][5]['values'])):
-            date_alone[(culture, d, ref)] = [(v['timex'], v['value']) for v in rr[0][5]['values']]
-    ctx.extra['word_time_dates_usable'] = '%d of %d' % (len(date_alone), len(pre))
+        why = why_unusable(rr, d, 'datetimeV2.date', 'date', False)
+        tree = None if why else [(v['timex'], v['value']) for v in rr[0][5]['values']]
+        indep = word_date(culture, d, ref)
+        if indep is not None:
+            n_indep += 1
+            if tree != indep:
+                skip('date alone %s %r: the tree reads %s, the text and the reference determine %s (the latter is demanded)' % (
+                    culture, d, 'nothing usable (%s)' % why if why else tree, indep))
+            date_alone[(culture, d, ref)] = indep
+        elif tree is not None:
+            date_alone[(culture, d, ref)] = tree
+        else:
+            skip('date alone %s %r: %s' % (culture, d, why))
+    ctx.extra['word_time_dates_usable'] = '%d of %d (%d determined independently of the tree)' % (len(date_alone), len(pre), n_indep)
     for culture, spec in words.items():
         if culture.startswith('_'):
             continue
@@ -943,13 +1013,13 @@ def pipeline(ctx, variant):
             for ref in wrefs:
                 dv = date_alone.get((culture, d, ref))
                 if dv is None:
-                    continue
+                    continue           # counted above (`word_time_skipped_by_reason`)
                 for w, hh in spec.get('attach', []):
                     for form in spec.get('forms', []):
                         add('word-attached:' + culture, form.format(d=d, w=w), ref, 'datetime',
                             [(tx + 'T%02d' % hh, val + ' %02d:00:00' % hh) for tx, val in dv], '%s', culture)
                 for w in spec.get('resolved_times', []):
-                    if (culture, w) in time_alone:
+                    if (culture, w) in time_alone:      # (unusable ones are counted above)
                         ttx, tval = time_alone[(culture, w)]
                         add('time-kept-after-date:' + culture, '%s at %s' % (d, w), ref, 'datetime',
                             [(tx + ttx, val + ' ' + tval) for tx, val in dv], '%s', culture)
@@ -1042,8 +1112,11 @@ def pipeline(ctx, variant):
             else:
                 got = [(v.get('timex'), v.get('value')) for v in resolution['values']]
                 types = {v.get('type') for v in resolution['values']}
-                if got != expected or types != {want_type}:
-                    bad = 'values %r, expected %r of type %s' % (got, expected, want_type)
+                # C07 demands exactly the readings (for an ambiguous clock time: the two readings twelve hours apart),
+                # NOT an order of them (C09 is the property that orders the past and the future candidate of a date)
+                unordered = lambda l: sorted(l, key=lambda x: (str(x[0]), str(x[1])))
+                if unordered(got) != unordered(expected) or types != {want_type}:
+                    bad = 'values %r, expected (in any order) %r of type %s' % (got, expected, want_type)
         if bad is None:
             ctx.nontriv(('pipe', q))
             ctx.passed(common.input_key({'culture': culture, 'query': q, 'reference': list(ref)}))
